@@ -27,3 +27,17 @@ def single_bits(nbytes):
 
 def xor(a, b):
     return bytes(x ^ y for x, y in zip(a, b))
+
+
+def zero_words(n, wordbytes=8, blockbytes=64, j=7):
+    """pseudo-random bytes in which the first and the last word of every block are zero and one inner word is all-ones
+    (value classes of message words: a compression input word that is 0 / all-ones)"""
+    b = bytearray(expander(n, j))
+    for o in range(0, n, blockbytes):
+        e = min(o + blockbytes, n)
+        b[o:min(o + wordbytes, e)] = bytes(min(wordbytes, e - o))
+        if e - o == blockbytes:
+            b[e - wordbytes:e] = bytes(wordbytes)
+            mid = o + (blockbytes // 2 // wordbytes) * wordbytes
+            b[mid:mid + wordbytes] = b'\xff' * wordbytes
+    return bytes(b)
